@@ -2,6 +2,7 @@ CONSTANTS
   N = 4
   MaxB = 4
   WithInit = TRUE
+  CanonInit = FALSE
   EmitCases = FALSE
 INIT Init
 NEXT Next
